@@ -76,3 +76,68 @@ def dep_closure(fnode, names):
                 out.add(y)
                 work.append(y)
     return out
+
+
+# ---------------------------------------------------------------------------
+# must-pass-through (typestate) helper
+# ---------------------------------------------------------------------------
+from ..flow import Walker, World     # noqa: E402
+
+
+class _Must(Walker):
+    def __init__(self, fnode, params, event, noreturn=()):
+        super().__init__(fnode, params, noreturn)
+        self.event = event
+
+    def init_state(self):
+        return False
+
+    def transfer(self, stmt, ws):
+        if self.event(stmt):
+            return [World(w.asg, w.atoms, w.weak, True) for w in ws]
+        return ws
+
+
+def enum_exhausted(world, enums):
+    """True if the world's atoms rule out every literal of some declared
+    enumeration for one subject (an if/elif chain over a closed enum fell through)."""
+    neg = {}
+    for k, v in world.atoms.items():
+        if k[0] == 'eq' and v is False:
+            neg.setdefault(k[1], set()).add(k[2])
+    for subj, lits in neg.items():
+        for en in enums:
+            if {repr(x) for x in en} <= lits:
+                return True
+    return False
+
+
+def must_pass(f, event, enums=(), exit_kinds=('return', 'fall'), noreturn=()):
+    """Exits of f reached (on a non-weak, feasible world) without the event.
+    -> [(kind, node, atoms-text)]"""
+    w = _Must(f.node, f.params, event, noreturn).run()
+    bad = []
+    for kind, node, ws in w.exits:
+        if kind not in exit_kinds:
+            continue
+        for x in ws:
+            if x.state or x.weak:
+                continue
+            if enum_exhausted(x, enums):
+                continue
+            atoms = ', '.join('%s%s' % ('' if v else 'not ', ' '.join(map(str, k[1:]))) for k, v in sorted(x.atoms.items(), key=repr))
+            bad.append((kind, node, atoms))
+            break
+    return bad
+
+
+def guard_requires(e, pol, pred):
+    """Does `e` evaluating to `pol` force some sub-condition satisfying pred to hold?
+    (a or b) true needs every disjunct to satisfy it; (a and b) true needs one."""
+    while isinstance(e, ast.UnaryOp) and isinstance(e.op, ast.Not):
+        e, pol = e.operand, not pol
+    if isinstance(e, ast.BoolOp):
+        every = isinstance(e.op, ast.Or) == bool(pol)
+        rs = [guard_requires(v, pol, pred) for v in e.values]
+        return all(rs) if every else any(rs)
+    return bool(pred(e, pol))
